@@ -195,6 +195,12 @@ def install(cfg):
             interp.raise_(TypeError, "Object is not JSON serializable")
         fn = S.JSONc if ensure_ascii else S.JSONu
         t = fn(v)
+        try:
+            from .core import lower
+            conc = lower(v)
+            t = z3.StringVal(json.dumps(conc, ensure_ascii=ensure_ascii, separators=(",", ":")))
+        except Exception:
+            pass
         key = ("json", tid(t))
         if key not in ctx.ghost:
             ctx.ghost[key] = True
